@@ -207,6 +207,24 @@ class Cone:
         return any(c in names or c.split(".")[-1].split(":")[-1].lstrip("?") in names for c in self.calls)
 
 
+VALUES_ONLY = [False]
+
+
+class values_only:
+    """Context: cones follow *value* dependences only - the prototype of `*_like(proto, fill)`, `x.shape` / `x.ndim` / `x.dtype` /
+    `len(x)` give a result its shape, not its value, and are not followed."""
+
+    def __enter__(self):
+        self.prev = VALUES_ONLY[0]
+        VALUES_ONLY[0] = True
+
+    def __exit__(self, *a):
+        VALUES_ONLY[0] = self.prev
+
+
+_LIKE_PROTOS = ("full_like", "zeros_like", "ones_like", "empty_like")
+
+
 def cone(du, expr, stmt=None, interproc=True, depth=0, _seen=None, _scope=None, _out=None):
     """Def-use cone of expr evaluated at stmt in du.f."""
     out = _out if _out is not None else Cone()
@@ -230,6 +248,8 @@ def cone(du, expr, stmt=None, interproc=True, depth=0, _seen=None, _scope=None, 
             follow_var(e.id)
             return
         if isinstance(e, ast.Attribute):
+            if VALUES_ONLY[0] and e.attr in ("shape", "ndim", "dtype", "size"):
+                return
             ch = attr_chain(e)
             if ch:
                 path = ".".join(ch)
@@ -305,6 +325,7 @@ def cone(du, expr, stmt=None, interproc=True, depth=0, _seen=None, _scope=None, 
         visit(e, scope)
 
     stmt_here = [stmt]
+    want_comp = [None]
 
     def follow_var(name, base_only=False):
         st = stmt_here[0]
@@ -337,7 +358,17 @@ def cone(du, expr, stmt=None, interproc=True, depth=0, _seen=None, _scope=None, 
                 # previous value of the variable flows in too
                 for pd in du.reaching(d.stmt, d.var):
                     follow_def(pd)
-            visit(d.value, {})
+            if d.how == "unpack" and isinstance(d.index, int) and isinstance(d.value, ast.Call) and not any(isinstance(t_, ast.Starred) for t_ in ast.walk(d.stmt.targets[0] if isinstance(d.stmt, ast.Assign) else d.stmt)):
+                # a, b = f(...): component b derives from the second element of the tuples f returns
+                want_comp[0] = d.index
+                try:
+                    visit(d.value, {})
+                finally:
+                    want_comp[0] = None
+            elif d.how == "unpack" and isinstance(d.index, int) and isinstance(d.value, ast.Tuple) and len(d.value.elts) > d.index and not any(isinstance(x_, ast.Starred) for x_ in d.value.elts):
+                visit(d.value.elts[d.index], {})
+            else:
+                visit(d.value, {})
             if d.how == "substore":
                 for pd in du.reaching(d.stmt, d.var):
                     follow_def(pd)
@@ -358,8 +389,13 @@ def cone(du, expr, stmt=None, interproc=True, depth=0, _seen=None, _scope=None, 
         cdu = get_defuse(callee, P)
         sub = Cone()
         rets = [n for n in walk_no_nested(callee.node) if isinstance(n, ast.Return) and n.value is not None]
+        comp = want_comp[0]
+        want_comp[0] = None
         for r in rets:
-            cone(cdu, r.value, r, interproc, depth + 1, set(), None, sub)
+            rv = r.value
+            if comp is not None and isinstance(rv, ast.Tuple) and len(rv.elts) > comp and not any(isinstance(x_, ast.Starred) for x_ in rv.elts):
+                rv = rv.elts[comp]
+            cone(cdu, rv, r, interproc, depth + 1, set(), None, sub)
         out.calls |= sub.calls
         out.consts += sub.consts
         out.nodes += sub.nodes
@@ -439,9 +475,15 @@ def cone(du, expr, stmt=None, interproc=True, depth=0, _seen=None, _scope=None, 
             visit(fexpr.value, scope)
         elif not isinstance(fexpr, ast.Name):
             visit(fexpr, scope)
-        for a in args:
+        fname_ = fexpr.attr if isinstance(fexpr, ast.Attribute) else getattr(fexpr, "id", None)
+        skip0 = VALUES_ONLY[0] and (fname_ in _LIKE_PROTOS or fname_ == "len")
+        for i_, a in enumerate(args):
+            if skip0 and i_ == 0:
+                continue
             visit(a.value if isinstance(a, ast.Starred) else a, scope)
         for k in kws:
+            if VALUES_ONLY[0] and k.arg in ("like", "shape", "dtype"):
+                continue
             visit(k.value, scope)
         if kind == "task" and isinstance(e.func, ast.Call):
             out.calls.add("dask.delayed")
